@@ -53,6 +53,16 @@ class TopO:
     b: MidO
     def __init__(self, b: MidO) -> None:
         self.b = b
+class CmPlain:
+    def __enter__(self) -> int:
+        return 0
+    def __exit__(self, *a: object) -> None:
+        return None
+class CmSup:
+    def __enter__(self) -> int:
+        return 0
+    def __exit__(self, *a: object) -> bool:
+        return True
 # unannotated helpers whose return value is inferred from their bodies; each of them can fall off its end
 def hg1(cc):
     if cc:
@@ -156,6 +166,11 @@ S1 = [
     # a loop with break inside a try body, between an assignment and a call that may raise
     "v = 0\n    try:\n        v = {e}\n        for w in (1, 2):\n            if c():\n                break\n        boom()\n    except ValueError:\n        use(v)",
     "v = 0\n    try:\n        v = {e}\n        while c():\n            if c():\n                continue\n            break\n        boom()\n    except ValueError:\n        use(v)\n    use(v)",
+    # with statements with several items: the exception-suppressing manager first, last, alone, nested
+    "v = 0\n    with CmPlain(), CmSup():\n        v = {e}\n        boom()\n        v = 'done'\n    use(v)",
+    "v = 0\n    with CmSup(), CmPlain():\n        v = {e}\n        boom()\n        v = 'done'\n    use(v)",
+    "v = 0\n    with CmPlain() as p, CmPlain(), CmSup() as q:\n        v = {e}\n        boom()\n        v = (p, q)\n    use(v)",
+    "v = 0\n    with CmPlain():\n        with CmSup():\n            v = {e}\n            boom()\n            v = 'done'\n        w = v\n    use(v)",
 ]
 S2 = [
     "w = v\n    use(w)",
